@@ -32,6 +32,9 @@ def cases(ctx):
         cfg["B"] = rng.choice([None, 0, 8])
         cfg["pp"] = rng.choice([None, None, ["10.0.0.0/8", "100.64.0.0/10"]])
         yield {"kind": "cfg", "cfg": cfg, "n": ctx.pick(9000, 40000), "aseed": rng.getrandbits(32), "long": True}
+    for i in range(ctx.per_shard(ctx.pick(4, 120))):
+        yield {"kind": "private_cli", "lseed": rng.getrandbits(32), "salt": "p%d" % rng.getrandbits(30),
+               "extra": rng.choice(["11.11.0.0/16", "100.0.0.0/8", "10.1.0.0/16"]), "B": rng.choice([0, 8, 8])}
     # many salts against the same prefix list: an unpinned last bit is a 1/2 event per salt
     for i in range(ctx.per_shard(ctx.pick(1500, 80000))):
         pp = rng.choice([None, ["10.0.0.0/8"], ["1.2.3.4/31"], ["12.0.0.0/6", "200.100.0.0/17"], [ipgen.rand_net4(rng)]])
@@ -105,6 +108,14 @@ def check_case(ctx, case):
         return suite_workload.run_for(ctx)
     if case["kind"] == "file":
         return _file(ctx, case)
+    if case["kind"] == "private_cli":
+        import os
+
+        from .. import load
+        from . import c05
+
+        os.makedirs(os.path.join(load.VERIF, ".work"), exist_ok=True)
+        return c05._private_cli(ctx, case)
     if case["kind"] != "cfg":
         raise HarnessError("unknown kind")
     cfg = case["cfg"]
